@@ -47,6 +47,7 @@ structure Inv (c : Cfg) (s : State) : Prop where
   lists_reg : (s.upc = .mbar1 ∨ s.upc = .p1 ∨ s.upc = .p2) → ∀ i, (s.inp i = true ∨ s.snap i = true ∨ s.qs i = true) → s.reg i = true
   lists_disj : (s.upc = .mbar1 ∨ s.upc = .p1 ∨ s.upc = .p2) → ∀ i, ¬ (s.inp i = true ∧ s.snap i = true) ∧ ¬ (s.inp i = true ∧ s.qs i = true) ∧ ¬ (s.snap i = true ∧ s.qs i = true)
   inp_p2 : s.upc = .p2 → ∀ i, i < c.n → s.inp i = false
+  held_reg : ∀ i, s.held i ≠ [] → s.reg i = true ∧ i < c.n
 
 theorem inv_init (c) : Inv c init := by
   constructor <;> simp [init, fenced, synced]
@@ -64,127 +65,139 @@ macro "step_tac" : tactic => `(tactic| (
 
 theorem inv_reg (c : Cfg) (hc : c.WF) {s s' : State} (h : Inv c s) (i)
     (st : step c s (.reg i) = some s') : Inv c s' := by
-  obtain ⟨h1, h2, h3, h4, h5, h6, h7, h8, h9, h10, h11, h12, h13, h14, h15, h16, h17, h18, h19, h20, h21, h22, h23, h24, h25, h26⟩ := h
+  obtain ⟨h1, h2, h3, h4, h5, h6, h7, h8, h9, h10, h11, h12, h13, h14, h15, h16, h17, h18, h19, h20, h21, h22, h23, h24, h25, h26, h27⟩ := h
   unfold Cfg.WF at hc
   step_tac
 
 theorem inv_unreg (c : Cfg) (hc : c.WF) {s s' : State} (h : Inv c s) (i)
     (st : step c s (.unreg i) = some s') : Inv c s' := by
-  obtain ⟨h1, h2, h3, h4, h5, h6, h7, h8, h9, h10, h11, h12, h13, h14, h15, h16, h17, h18, h19, h20, h21, h22, h23, h24, h25, h26⟩ := h
+  obtain ⟨h1, h2, h3, h4, h5, h6, h7, h8, h9, h10, h11, h12, h13, h14, h15, h16, h17, h18, h19, h20, h21, h22, h23, h24, h25, h26, h27⟩ := h
   unfold Cfg.WF at hc
   step_tac
 
 theorem inv_rLd (c : Cfg) (hc : c.WF) {s s' : State} (h : Inv c s) (i)
     (st : step c s (.rLd i) = some s') : Inv c s' := by
-  obtain ⟨h1, h2, h3, h4, h5, h6, h7, h8, h9, h10, h11, h12, h13, h14, h15, h16, h17, h18, h19, h20, h21, h22, h23, h24, h25, h26⟩ := h
+  obtain ⟨h1, h2, h3, h4, h5, h6, h7, h8, h9, h10, h11, h12, h13, h14, h15, h16, h17, h18, h19, h20, h21, h22, h23, h24, h25, h26, h27⟩ := h
   unfold Cfg.WF at hc
   step_tac
 
 theorem inv_rSt (c : Cfg) (hc : c.WF) {s s' : State} (h : Inv c s) (i)
     (st : step c s (.rSt i) = some s') : Inv c s' := by
-  obtain ⟨h1, h2, h3, h4, h5, h6, h7, h8, h9, h10, h11, h12, h13, h14, h15, h16, h17, h18, h19, h20, h21, h22, h23, h24, h25, h26⟩ := h
+  obtain ⟨h1, h2, h3, h4, h5, h6, h7, h8, h9, h10, h11, h12, h13, h14, h15, h16, h17, h18, h19, h20, h21, h22, h23, h24, h25, h26, h27⟩ := h
   unfold Cfg.WF at hc
   step_tac
 
 theorem inv_rEnter (c : Cfg) (hc : c.WF) {s s' : State} (h : Inv c s) (i)
     (st : step c s (.rEnter i) = some s') : Inv c s' := by
-  obtain ⟨h1, h2, h3, h4, h5, h6, h7, h8, h9, h10, h11, h12, h13, h14, h15, h16, h17, h18, h19, h20, h21, h22, h23, h24, h25, h26⟩ := h
+  obtain ⟨h1, h2, h3, h4, h5, h6, h7, h8, h9, h10, h11, h12, h13, h14, h15, h16, h17, h18, h19, h20, h21, h22, h23, h24, h25, h26, h27⟩ := h
   unfold Cfg.WF at hc
   step_tac
 
 theorem inv_rInc (c : Cfg) (hc : c.WF) {s s' : State} (h : Inv c s) (i)
     (st : step c s (.rInc i) = some s') : Inv c s' := by
-  obtain ⟨h1, h2, h3, h4, h5, h6, h7, h8, h9, h10, h11, h12, h13, h14, h15, h16, h17, h18, h19, h20, h21, h22, h23, h24, h25, h26⟩ := h
+  obtain ⟨h1, h2, h3, h4, h5, h6, h7, h8, h9, h10, h11, h12, h13, h14, h15, h16, h17, h18, h19, h20, h21, h22, h23, h24, h25, h26, h27⟩ := h
   unfold Cfg.WF at hc
   step_tac
 
 theorem inv_rDec (c : Cfg) (hc : c.WF) {s s' : State} (h : Inv c s) (i)
     (st : step c s (.rDec i) = some s') : Inv c s' := by
-  obtain ⟨h1, h2, h3, h4, h5, h6, h7, h8, h9, h10, h11, h12, h13, h14, h15, h16, h17, h18, h19, h20, h21, h22, h23, h24, h25, h26⟩ := h
+  obtain ⟨h1, h2, h3, h4, h5, h6, h7, h8, h9, h10, h11, h12, h13, h14, h15, h16, h17, h18, h19, h20, h21, h22, h23, h24, h25, h26, h27⟩ := h
   unfold Cfg.WF at hc
   step_tac
 
 theorem inv_rUnlock (c : Cfg) (hc : c.WF) {s s' : State} (h : Inv c s) (i)
     (st : step c s (.rUnlock i) = some s') : Inv c s' := by
-  obtain ⟨h1, h2, h3, h4, h5, h6, h7, h8, h9, h10, h11, h12, h13, h14, h15, h16, h17, h18, h19, h20, h21, h22, h23, h24, h25, h26⟩ := h
+  obtain ⟨h1, h2, h3, h4, h5, h6, h7, h8, h9, h10, h11, h12, h13, h14, h15, h16, h17, h18, h19, h20, h21, h22, h23, h24, h25, h26, h27⟩ := h
   unfold Cfg.WF at hc
   step_tac
 
 theorem inv_rRead (c : Cfg) (hc : c.WF) {s s' : State} (h : Inv c s) (i)
     (st : step c s (.rRead i) = some s') : Inv c s' := by
-  obtain ⟨h1, h2, h3, h4, h5, h6, h7, h8, h9, h10, h11, h12, h13, h14, h15, h16, h17, h18, h19, h20, h21, h22, h23, h24, h25, h26⟩ := h
+  obtain ⟨h1, h2, h3, h4, h5, h6, h7, h8, h9, h10, h11, h12, h13, h14, h15, h16, h17, h18, h19, h20, h21, h22, h23, h24, h25, h26, h27⟩ := h
   unfold Cfg.WF at hc
   step_tac
 
 theorem inv_flush (c : Cfg) (hc : c.WF) {s s' : State} (h : Inv c s) (i)
     (st : step c s (.flush i) = some s') : Inv c s' := by
-  obtain ⟨h1, h2, h3, h4, h5, h6, h7, h8, h9, h10, h11, h12, h13, h14, h15, h16, h17, h18, h19, h20, h21, h22, h23, h24, h25, h26⟩ := h
+  obtain ⟨h1, h2, h3, h4, h5, h6, h7, h8, h9, h10, h11, h12, h13, h14, h15, h16, h17, h18, h19, h20, h21, h22, h23, h24, h25, h26, h27⟩ := h
   unfold Cfg.WF at hc
   step_tac
 
 theorem inv_uStart (c : Cfg) (hc : c.WF) {s s' : State} (h : Inv c s) (trk)
     (st : step c s (.uStart trk) = some s') : Inv c s' := by
-  obtain ⟨h1, h2, h3, h4, h5, h6, h7, h8, h9, h10, h11, h12, h13, h14, h15, h16, h17, h18, h19, h20, h21, h22, h23, h24, h25, h26⟩ := h
+  obtain ⟨h1, h2, h3, h4, h5, h6, h7, h8, h9, h10, h11, h12, h13, h14, h15, h16, h17, h18, h19, h20, h21, h22, h23, h24, h25, h26, h27⟩ := h
   unfold Cfg.WF at hc
   step_tac
 
 theorem inv_uStartEmpty (c : Cfg) (hc : c.WF) {s s' : State} (h : Inv c s) (trk)
     (st : step c s (.uStartEmpty trk) = some s') : Inv c s' := by
-  obtain ⟨h1, h2, h3, h4, h5, h6, h7, h8, h9, h10, h11, h12, h13, h14, h15, h16, h17, h18, h19, h20, h21, h22, h23, h24, h25, h26⟩ := h
+  obtain ⟨h1, h2, h3, h4, h5, h6, h7, h8, h9, h10, h11, h12, h13, h14, h15, h16, h17, h18, h19, h20, h21, h22, h23, h24, h25, h26, h27⟩ := h
   unfold Cfg.WF at hc
   step_tac
 
 theorem inv_forced (c : Cfg) (hc : c.WF) {s s' : State} (h : Inv c s) (i)
     (st : step c s (.forced i) = some s') : Inv c s' := by
-  obtain ⟨h1, h2, h3, h4, h5, h6, h7, h8, h9, h10, h11, h12, h13, h14, h15, h16, h17, h18, h19, h20, h21, h22, h23, h24, h25, h26⟩ := h
+  obtain ⟨h1, h2, h3, h4, h5, h6, h7, h8, h9, h10, h11, h12, h13, h14, h15, h16, h17, h18, h19, h20, h21, h22, h23, h24, h25, h26, h27⟩ := h
   unfold Cfg.WF at hc
   step_tac
 
 theorem inv_uMbarRet (c : Cfg) (hc : c.WF) {s s' : State} (h : Inv c s)
     (st : step c s .uMbarRet = some s') : Inv c s' := by
-  obtain ⟨h1, h2, h3, h4, h5, h6, h7, h8, h9, h10, h11, h12, h13, h14, h15, h16, h17, h18, h19, h20, h21, h22, h23, h24, h25, h26⟩ := h
+  obtain ⟨h1, h2, h3, h4, h5, h6, h7, h8, h9, h10, h11, h12, h13, h14, h15, h16, h17, h18, h19, h20, h21, h22, h23, h24, h25, h26, h27⟩ := h
   unfold Cfg.WF at hc
   step_tac
 
 theorem inv_uScan1Inactive (c : Cfg) (hc : c.WF) {s s' : State} (h : Inv c s) (j)
     (st : step c s (.uScan1Inactive j) = some s') : Inv c s' := by
-  obtain ⟨h1, h2, h3, h4, h5, h6, h7, h8, h9, h10, h11, h12, h13, h14, h15, h16, h17, h18, h19, h20, h21, h22, h23, h24, h25, h26⟩ := h
+  obtain ⟨h1, h2, h3, h4, h5, h6, h7, h8, h9, h10, h11, h12, h13, h14, h15, h16, h17, h18, h19, h20, h21, h22, h23, h24, h25, h26, h27⟩ := h
   unfold Cfg.WF at hc
   step_tac
 
 theorem inv_uScan1Current (c : Cfg) (hc : c.WF) {s s' : State} (h : Inv c s) (j)
     (st : step c s (.uScan1Current j) = some s') : Inv c s' := by
-  obtain ⟨h1, h2, h3, h4, h5, h6, h7, h8, h9, h10, h11, h12, h13, h14, h15, h16, h17, h18, h19, h20, h21, h22, h23, h24, h25, h26⟩ := h
+  obtain ⟨h1, h2, h3, h4, h5, h6, h7, h8, h9, h10, h11, h12, h13, h14, h15, h16, h17, h18, h19, h20, h21, h22, h23, h24, h25, h26, h27⟩ := h
   unfold Cfg.WF at hc
   step_tac
 
 theorem inv_uFlip (c : Cfg) (hc : c.WF) {s s' : State} (h : Inv c s)
     (st : step c s .uFlip = some s') : Inv c s' := by
-  obtain ⟨h1, h2, h3, h4, h5, h6, h7, h8, h9, h10, h11, h12, h13, h14, h15, h16, h17, h18, h19, h20, h21, h22, h23, h24, h25, h26⟩ := h
+  obtain ⟨h1, h2, h3, h4, h5, h6, h7, h8, h9, h10, h11, h12, h13, h14, h15, h16, h17, h18, h19, h20, h21, h22, h23, h24, h25, h26, h27⟩ := h
   unfold Cfg.WF at hc
   step_tac
 
 theorem inv_uScan2 (c : Cfg) (hc : c.WF) {s s' : State} (h : Inv c s) (j)
     (st : step c s (.uScan2 j) = some s') : Inv c s' := by
-  obtain ⟨h1, h2, h3, h4, h5, h6, h7, h8, h9, h10, h11, h12, h13, h14, h15, h16, h17, h18, h19, h20, h21, h22, h23, h24, h25, h26⟩ := h
+  obtain ⟨h1, h2, h3, h4, h5, h6, h7, h8, h9, h10, h11, h12, h13, h14, h15, h16, h17, h18, h19, h20, h21, h22, h23, h24, h25, h26, h27⟩ := h
   unfold Cfg.WF at hc
   step_tac
 
 theorem inv_uP2Done (c : Cfg) (hc : c.WF) {s s' : State} (h : Inv c s)
     (st : step c s .uP2Done = some s') : Inv c s' := by
-  obtain ⟨h1, h2, h3, h4, h5, h6, h7, h8, h9, h10, h11, h12, h13, h14, h15, h16, h17, h18, h19, h20, h21, h22, h23, h24, h25, h26⟩ := h
+  obtain ⟨h1, h2, h3, h4, h5, h6, h7, h8, h9, h10, h11, h12, h13, h14, h15, h16, h17, h18, h19, h20, h21, h22, h23, h24, h25, h26, h27⟩ := h
   unfold Cfg.WF at hc
   step_tac
 
 theorem inv_uEnd (c : Cfg) (hc : c.WF) {s s' : State} (h : Inv c s)
     (st : step c s .uEnd = some s') : Inv c s' := by
-  obtain ⟨h1, h2, h3, h4, h5, h6, h7, h8, h9, h10, h11, h12, h13, h14, h15, h16, h17, h18, h19, h20, h21, h22, h23, h24, h25, h26⟩ := h
+  obtain ⟨h1, h2, h3, h4, h5, h6, h7, h8, h9, h10, h11, h12, h13, h14, h15, h16, h17, h18, h19, h20, h21, h22, h23, h24, h25, h26, h27⟩ := h
   unfold Cfg.WF at hc
   step_tac
 
 theorem inv_setY (c : Cfg) (hc : c.WF) {s s' : State} (h : Inv c s)
     (st : step c s .setY = some s') : Inv c s' := by
-  obtain ⟨h1, h2, h3, h4, h5, h6, h7, h8, h9, h10, h11, h12, h13, h14, h15, h16, h17, h18, h19, h20, h21, h22, h23, h24, h25, h26⟩ := h
+  obtain ⟨h1, h2, h3, h4, h5, h6, h7, h8, h9, h10, h11, h12, h13, h14, h15, h16, h17, h18, h19, h20, h21, h22, h23, h24, h25, h26, h27⟩ := h
+  unfold Cfg.WF at hc
+  step_tac
+
+theorem inv_sigPush (c : Cfg) (hc : c.WF) {s s' : State} (h : Inv c s) (i)
+    (st : step c s (.sigPush i) = some s') : Inv c s' := by
+  obtain ⟨h1, h2, h3, h4, h5, h6, h7, h8, h9, h10, h11, h12, h13, h14, h15, h16, h17, h18, h19, h20, h21, h22, h23, h24, h25, h26, h27⟩ := h
+  unfold Cfg.WF at hc
+  step_tac
+
+theorem inv_sigPop (c : Cfg) (hc : c.WF) {s s' : State} (h : Inv c s) (i)
+    (st : step c s (.sigPop i) = some s') : Inv c s' := by
+  obtain ⟨h1, h2, h3, h4, h5, h6, h7, h8, h9, h10, h11, h12, h13, h14, h15, h16, h17, h18, h19, h20, h21, h22, h23, h24, h25, h26, h27⟩ := h
   unfold Cfg.WF at hc
   step_tac
 
@@ -212,6 +225,8 @@ theorem inv_step (c : Cfg) (hc : c.WF) {s s' : State} {l : Label} (h : Inv c s)
   | uP2Done => exact inv_uP2Done c hc h st
   | uEnd => exact inv_uEnd c hc h st
   | setY => exact inv_setY c hc h st
+  | sigPush i => exact inv_sigPush c hc h i st
+  | sigPop i => exact inv_sigPop c hc h i st
 
 theorem inv_reach (c : Cfg) (hc : c.WF) {s : State} (h : Reach c s) : Inv c s := by
   induction h with
